@@ -23,7 +23,7 @@ RULE = ("random command lists (literal / copy with position anywhere in the ring
 
 
 def budget(tier):
-    return 700 if tier == "quick" else 12000
+    return 700 if tier == "quick" else 60000
 
 
 def rand_cmds(r, meth):
